@@ -8,7 +8,7 @@ class C17(Prop):
     id = 'C17'
     title = 'Compact targets and the proof-of-work check follow the consensus definition'
     lean_targets = ['BtcVerif.Props.C17']
-    table_groups = ['Chain']
+    table_groups = ['ChainPow']
     theorems = ['BtcVerif.C17.' + t for t in (
         'decode_spec', 'toCompact_canonical', 'compact_signbit_clear', 'decode_encode', 'encode_decode',
         'pow_iff', 'pow_reject_is_validation')]
@@ -20,7 +20,7 @@ class C17(Prop):
                     'pow.cpp CheckProofOfWork', 'btcmodel executable = compiled Model.* (Lean compiler)',
                     'Python int &,>>,<< on non-negative ints = mod/div/mul by powers of two; '
                     '(bit_length+7)>>3 = byte length (validated by the correspondence run)']
-    assumptions = ['the per-chain work limit is the one in the library parameter table (tied by T1 Tables.Chain)']
+    assumptions = ['the per-chain work limit is the one in the library parameter table (tied by T1 Tables.ChainPow)']
     rule = ('exponents 0..255 x boundary/mined/random mantissas with and without the sign bit; integers of every '
             'bit length 0..256 (edges+random); per chain: hashes at target-1/target/target+1 for targets around '
             'the chain limit; non-trivial = not the all-zero input; distinct by canonical request line')
@@ -87,6 +87,19 @@ class C17(Prop):
                 hs |= {t2, max(t2 - 1, 0)}
                 for h in sorted(hs):
                     yield mk('c17.powChain', chain, h.to_bytes(32, 'little').hex(), b, tag='pow')
+        # (d) the same compact values under the chains in the opposite order (regtest first): an answer
+        #     memoised under one chain must not survive SelectParams()
+        probe = sorted({self.S.compact_from_uint256(v) for lim in limits.values()
+                        for v in (lim, lim >> 1, lim >> 8, lim >> 9, lim >> 31, lim >> 32, lim >> 33)}
+                       | {0x207fffff, 0x2000ffff, 0x1d010000, 0x1d00ffff, 0x1e0377ae, 0x1f00ffff})
+        for rnd in range(2):
+            for chain in (CHAINS[::-1] if rnd == 0 else CHAINS):
+                for b in probe:
+                    i += 1
+                    if i % nshards != shard:
+                        continue
+                    for h in (0, 1):
+                        yield mk('c17.powChain', chain, h.to_bytes(32, 'little').hex(), b, tag='pow-switch')
 
     def impl(self, c):
         S = self.S
